@@ -70,7 +70,8 @@ def build_world(desc):
             ds["d_" + d] = ((d,), r.integers(1, 9, size=ds.sizes[d]).astype(float))
         ds["area"] = (("yc", "xc"), r.integers(1, 9, size=(M, N)).astype(float))
         W["coords"] = {"X": {"center": "xc", "left": "xg", "outer": "xo"}, "Y": {"center": "yc", "left": "yg"}, "Z": {"center": "zc", "outer": "zo"}}
-        W["ctor_boundary"] = {"X": desc["rule"], "Z": "fill"}
+        W["ctor_boundary"] = [{"X": desc["rule"], "Z": "fill"}, {"X": desc["rule"], "Y": None, "Z": "fill"},
+                              {"X": None, "Y": None, "Z": None}][desc["seed"] % 3]
         W["ctor_fill"] = {"X": 2.0}
         W["ctor_periodic"] = {"X": False, "Y": True, "Z": False}
         W["ctor_shifts"] = {"X": {"center": "outer"}}
